@@ -17,7 +17,8 @@
      W name                       words_iter, sorted                                     -> ...
      Z name d k | q | lq | impl   fuzzy_match; `impl` is the implementation's own result (entries
                                   "dist meta c1 c2 .." separated by ';', or "P class"):
-        mutable dictionary: the model's result in canonical form (canon_fuzzy);
+        mutable dictionary: the model's result raw, in order (the (distance, word) sort of fix 5a329ea is a
+          total order on the candidates: one possible outcome, C15_mutable_fuzzy_deterministic);
         FST dictionary: sort_unstable leaves the outcome open when a word reaches the dedup twice with
           different distances and at the cap; the implementation's result is validated against the
           relational specification (fst_admissible over the model's zip output): admissible -> its
@@ -163,7 +164,11 @@ let () =
                (match impl_r with Some r -> Hashtbl.replace last name (key, r) | None -> Hashtbl.remove last name);
                let show_canon = function Panic w -> "P " ^ panic_name w | Ok r -> canon_fuzzy k r in
                (match kind with
-                | KM -> print_endline (show_canon (d.d_fuzzy qt lqt dn kn))
+                | KM ->
+                    (* since fix 5a329ea the (distance, word) sort leaves nothing open: raw, in order *)
+                    (match d.d_fuzzy qt lqt dn kn with
+                     | Panic w -> print_endline ("P " ^ panic_name w)
+                     | Ok r -> print_endline (raw_fuzzy r))
                 | KF f ->
                     let model = d.d_fuzzy qt lqt dn kn in
                     (match model, impl_r with
